@@ -9,7 +9,9 @@ def main():
     import lxml  # noqa
     import odfdo
 
-    assert odfdo.__file__.startswith("/repo/src"), odfdo.__file__
+    import os
+
+    assert odfdo.__file__.startswith(os.environ.get("ODFDO_REPO", "/repo") + "/src"), odfdo.__file__
     from .models.grid import RowModel, norm_index
     from .models import tableread as TR
 
